@@ -13,6 +13,8 @@ import (
 	"go/token"
 	"go/types"
 	"strings"
+
+	"golang.org/x/tools/go/packages"
 )
 
 type fcanon struct {
@@ -28,12 +30,22 @@ func shortType(t types.Type) string {
 
 func newFuncCanon(info *types.Info, fd *ast.FuncDecl) *fcanon { return newFuncCanonMode(info, fd, false) }
 
+// newFuncCanonG additionally prints calls of the package's trivial getters as the field they return.
+func newFuncCanonG(p *packages.Package, fd *ast.FuncDecl) *fcanon {
+	return newFuncCanonOpt(p.TypesInfo, fd, false, pkgGetters(p))
+}
+
 // newFuncCanonAbs prints receiver, parameters and every other variable without a single definition
 // by type (var<T>), so the result does not depend on which function the expression sits in.
 func newFuncCanonAbs(info *types.Info, fd *ast.FuncDecl) *fcanon { return newFuncCanonMode(info, fd, true) }
 
 func newFuncCanonMode(info *types.Info, fd *ast.FuncDecl, abs bool) *fcanon {
+	return newFuncCanonOpt(info, fd, abs, nil)
+}
+
+func newFuncCanonOpt(info *types.Info, fd *ast.FuncDecl, abs bool, getters map[*types.Func]string) *fcanon {
 	d := newDT(info)
+	d.getters = getters
 	p := seedEnv(d, fd)
 	if abs {
 		d.absVars = true
